@@ -35,7 +35,6 @@ NOT_APPLICABLE = {
     "C01": "restart == replay of the WAL by open_with_prefs over files, roll-over and GC: " + NA_GLUE,
     "C03": "the property is the order of flush / sync_data / sync_directory / remove_file calls issued by multi_record_log.rs and rolling/directory.rs: " + NA_GLUE,
     "C11": "the failing retry loop is the `let Ok(..) else continue` of open_with_prefs, which cannot be executed without RollingReader: " + NA_GLUE,
-    "C14": "lock-step runs of MultiRecordLog under different policies (and Instant::now): " + NA_GLUE,
 }
 
 CHECKS = {
@@ -121,7 +120,7 @@ CHECKS = {
                        "checked call by call against a model. Behaviour across restarts is not claimed."),
         "level_note": "trusted: kani-compiler, CBMC, CaDiCaL, the reference queue in harness/mem.rs; <= 4 retained records, payloads <= 3 bytes, concrete positions",
         "filters": ["c05_", "c18_iso_q"],
-        "quick": {"harnesses": [("real", "c05_obs*_q*"), ("real", "c05_ring_wrap_q"), ("real", "c05_big_q*"), ("real", "c05_range_sym_q*"), ("real", "c18_iso_q_0*"), ("real", "c05_log_q*"), ("real", "c05_log2_q*")], "jobs": 14, "timeout": 1200},
+        "quick": {"harnesses": [("real", "c05_obs*_q*"), ("real", "c05_ring_wrap_q"), ("real", "c05_big_q*"), ("real", "c05_range_sym_q*"), ("real", "c18_iso_q_00[0-3]"), ("real", "c05_log_q*"), ("real", "c05_log2_q_00[0178]")], "jobs": 14, "timeout": 1200},
         "thorough": {"harnesses": [("real", "c05_obs*"), ("real", "c05_ring_wrap_q"), ("real", "c05_big_q*"), ("real", "c05_range_sym_*"), ("real", "c18_iso_q_0*"), ("real", "c05_log_*")], "jobs": 16, "timeout": 2400},
         "rule": ("case = one operation script (appends of 0..3 symbolic bytes at next / +1 / +2 / rejected position, truncations at 8 "
                  "relative targets) or one symbolic-bounds range query on a constructed state; lock step with the reference; "
@@ -388,5 +387,25 @@ CHECKS = {
         "assumptions": ["MultiRecordLog constructed through guarded hooks (no directory scan, no replay): three tracked files, writer on the last one at offset 1000, queues as a replay would have left them",
                         "I/O leaves stubbed: <File as Write>::write and File::sync_data return Ok, std::fs::remove_file returns Ok, Directory::sync_directory skipped (guarded hook), rolling::directory::filepath returns an empty path (format! is not executable); crc32 constant",
                         "HashMap<String, MemQueue> replaced by an association list (guarded hook); calls that would return Err(MissingQueue) are not issued (B17)"],
+    },
+
+    "C14": {
+        "design_ref": "DESIGN.md section 4, C14",
+        "technique": "bounded model checking of the compiled Rust (Kani/CBMC): the real MultiRecordLog under three persist policies against one model",
+        "level_text": ("Bounded model checking of the real MultiRecordLog (constructed through hooks over stubbed I/O leaves) under PersistPolicy::DoNothing, "
+                       "Always(Flush) and Always(FlushAndFsync): every single call of the alphabet on the pre-populated log returns the same positions, eviction "
+                       "counts, byte counts and errors and leaves the same observable state -- all three are compared with one and the same policy-free model. "
+                       "OnDelay (reads the clock: a foreign call) and the state after drop + open are not covered."),
+        "level_note": "trusted: as C13; the model is the oracle for all policies (C13's runs are the Always(Flush) leg)",
+        "filters": ["c14_", "c13_one"],
+        "quick": {"harnesses": [("real", "c14_pol*_q*"), ("real", "c13_one_q_0*")], "jobs": 14, "timeout": 1500},
+        "thorough": {"harnesses": [("real", "c14_*"), ("real", "c13_one_q_0*")], "jobs": 16, "timeout": 3000},
+        "rule": "case = (persist policy, one call); counted from the symex log",
+        "samples": ["c14_pol1_q_001: DoNothing, append(None) on queue a", "c14_pol2_q_007: Always(FlushAndFsync), truncate(first) with GC"],
+        "functions": ["persist_policy::{PersistPolicy -> PersistState, PersistState::should_persist, update_persisted}", "multi_record_log::MultiRecordLog::{persist_on_policy, persist, create_queue, append_records, truncate, delete_queue}",
+                      "rolling::directory::RollingWriter::persist", "std::io::BufWriter::{write_all, flush}"],
+        "bounds": {"quick": {"policies": "DoNothing, Always(Flush), Always(FlushAndFsync)", "script_length": 1}, "thorough": {"plus": "reclamation alphabet under the two other policies"}},
+        "outside": ["OnDelay (Instant::now)", "state after drop + open", "explicit persist() calls interleaved"],
+        "assumptions": ["as C13"],
     },
 }
